@@ -163,6 +163,8 @@ def run_shard(desc):
     # an extra grain of which only ONE ZONE of reflections was recorded (hkl with h+k+l = 0, or h+2k = 0: a coplanar set in a general
     # direction): whatever is reported for it must still be a right-handed copy of the lattice indexing more than the minimum
     combos += [(0.02, 0.002, -3.0, 0.005, "zone111"), (0.02, 0.002, -3.0, 0.005, "zone120")]
+    # noise-free data with a ring tolerance of 1e-8 (computed ring positions must be good to the last digits, not to six decimals)
+    combos += [(0.01, 0.002, 0.5, 1e-8, "ideal")]
     # a slightly mosaic first grain: besides its exact reflections, the high-order reflections of a sub-domain 0.46 degrees away (split
     # high-angle peaks), fewer than the minimum: the sub-domain alone is not reportable, and a trial through two of its peaks indexes
     # mostly peaks the grain already owns - the grain must not be reported a second time
